@@ -20,7 +20,7 @@ SRV = 'impl<F: FileSystem + Sync> Server<F>'
 CTX = "impl<F: FileSystem, S: BitmapSlice> SrvContext<'_, F, S>"
 CTXA = "impl<'a, F: FileSystem, S: BitmapSlice> SrvContext<'a, F, S>"
 
-WIRE = ['SetupmappingIn', 'RemovemappingIn', 'Attr', 'Kstatfs', 'EntryOut', 'ForgetIn', 'ForgetOne', 'BatchForgetIn', 'GetattrIn', 'AttrOut', 'MknodIn', 'MkdirIn',
+WIRE = ['NotifyInvalEntryOut', 'NotifyInvalInodeOut', 'SetupmappingIn', 'RemovemappingIn', 'Attr', 'Kstatfs', 'EntryOut', 'ForgetIn', 'ForgetOne', 'BatchForgetIn', 'GetattrIn', 'AttrOut', 'MknodIn', 'MkdirIn',
         'RenameIn', 'Rename2In', 'LinkIn', 'SetattrIn', 'OpenIn', 'CreateIn', 'OpenOut', 'ReleaseIn', 'FlushIn', 'ReadIn', 'WriteIn',
         'WriteOut', 'FsyncIn', 'SetxattrIn', 'GetxattrIn', 'GetxattrOut', 'LkIn', 'LkOut', 'AccessIn', 'InitIn', 'InitIn2', 'InitOut',
         'BmapIn', 'BmapOut', 'IoctlIn', 'IoctlOut', 'PollIn', 'PollOut', 'FallocateIn', 'InHeader', 'OutHeader', 'Dirent',
@@ -222,6 +222,25 @@ pub open spec fn reply_init<F: FileSystem>(fs: &F, hd: InHeader, rem: Seq<u8>, b
             Ok(w) => exists|o: InitOut| #[trigger] init_reply_is(o, a, init_capable(a, rem), w.bits, hd.unique, b),
             Err(e) => b == err_reply(hd.unique, e) } }
     } else { is_err_reply(hd.unique, b) }
+}
+// ---- notifications (C03): "notification messages carry the given arguments with a length equal to their size";
+//      codes are the kernel's enum fuse_notify_code (INVAL_INODE = 2, INVAL_ENTRY = 3; RESEND = 7 is newer than the installed header)
+pub open spec fn notify_inval_entry_bytes(parent: u64, name: Seq<u8>) -> Seq<u8> {
+    hdr_bytes(16 + 16 + name.len() + 1, 3, 0) + (NotifyInvalEntryOut { parent: parent, namelen: name.len() as u32, padding: 0 }).sbytes() + name.push(0u8)
+}
+pub open spec fn notify_inval_inode_bytes(ino: u64, off: u64, len: u64) -> Seq<u8> {
+    hdr_bytes(16 + 24, 2, 0) + (NotifyInvalInodeOut { ino: ino, off: off as i64, len: len as i64 }).sbytes()
+}
+pub open spec fn notify_resend_bytes() -> Seq<u8> { hdr_bytes(16, 7, 0) }
+pub proof fn lemma_notify_frame(len: nat, code: i32, rest: Seq<u8>)
+    requires len == 16 + rest.len(), len <= 0xffff_ffff, code > 0
+    ensures notify_frame_ok(hdr_bytes(len, code, 0) + rest)       // [C03.notify.frame]
+{
+    broadcast use axiom_sbytes_len, axiom_decode_encode;
+    reveal(notify_frame_ok);
+    let h = OutHeader { len: len as u32, error: code, unique: 0 };
+    assert(h.sbytes().len() == 16);
+    assert((h.sbytes() + rest).subrange(0, 16) =~= h.sbytes());
 }
 // ---- directory entries (C03, C16): fuse_dirent {ino, off, namelen, type} + name, padded to 8 bytes; plus: fuse_entry_out in front
 pub open spec fn dirent_pad(namelen: int) -> int { (8 - (24 + namelen) % 8) % 8 }
@@ -478,6 +497,7 @@ def unit(root='/repo'):
     items += flagsmodel.items(root, ABI, 'FsOptions')
     items += [
         Copy(ABI, r'pub enum Opcode\b', prefix='#[repr(u32)]\n#[derive(Clone, Copy)]'),
+        Copy(ABI, r'pub enum NotifyOpcode\b', prefix='#[repr(u32)]\n#[derive(Clone, Copy)]'),
         Copy(FSMOD, r'pub struct Context\b', prefix='#[derive(Clone, Copy)]', subst=[('libc::uid_t', 'u32'), ('libc::gid_t', 'u32'), ('libc::pid_t', 'i32')]),
         Copy(FSMOD, r'pub struct Entry\b', prefix='#[derive(Clone, Copy)]'),
         Copy(FSMOD, r'pub struct DirEntry\b', prefix='#[derive(Clone, Copy)]', subst=[('ino64_t', 'u64')]),
@@ -565,7 +585,7 @@ impl<'a, S: BitmapSlice> ZeroCopyReader for ZcReader<'a, S> { }
         }''')],
            props=['C01'], canary=True),
         Fn(SYNC, CTX, 'do_reply_error',
-           requires=['old(self).w.primary@ && old(self).w.emitted@.len() == 0 && old(self).w.buf@.len() == 0 && old(self).w.cap@ <= MAX_REPLY_CAP',
+           requires=['old(self).w.primary@ && old(self).w.emitted@.len() == 0 && old(self).w.buf@.len() == 0 && old(self).w.cap@ <= MAX_REPLY_CAP && !is_notify(old(self).w.id@)',
                      'uniq(old(self).w.id@) == old(self).in_header.unique', 'may_reply(old(self).w.id@)', 'err_ok(err)',
                      'emit_ok(old(self).w.id@, err_reply(old(self).in_header.unique, err)) // [C03.reply_error.bytes]'],
            ensures=FRAME + ['''match r { Ok(n) => final(self).w.emitted@.len() == 1 && final(self).w.emitted@[0] == err_reply(old(self).in_header.unique, err) && n == 16, Err(_) => final(self).w.emitted@.len() == 0 } // [C01.reply_error.one]'''],
@@ -574,13 +594,13 @@ impl<'a, S: BitmapSlice> ZeroCopyReader for ZcReader<'a, S> { }
                     ('|_v|', 'closure', '|_v: usize| -> (q: usize) ensures q == 16')],
            props=['C01'], canary=True),
         Fn(SYNC, CTX, 'reply_error',
-           requires=['old(self).w.primary@ && old(self).w.emitted@.len() == 0 && old(self).w.buf@.len() == 0 && old(self).w.cap@ <= MAX_REPLY_CAP',
+           requires=['old(self).w.primary@ && old(self).w.emitted@.len() == 0 && old(self).w.buf@.len() == 0 && old(self).w.cap@ <= MAX_REPLY_CAP && !is_notify(old(self).w.id@)',
                      'uniq(old(self).w.id@) == old(self).in_header.unique', 'may_reply(old(self).w.id@)', 'err_ok(err)',
                      'emit_ok(old(self).w.id@, err_reply(old(self).in_header.unique, err)) // [C03.reply_error.bytes]'],
            ensures=FRAME + ['match r { Ok(n) => final(self).w.emitted@.len() == 1 && final(self).w.emitted@[0] == err_reply(old(self).in_header.unique, err) && n == 16, Err(_) => final(self).w.emitted@.len() == 0 }'],
            props=['C01']),
         Fn(SYNC, CTX, 'reply_error_explicit',
-           requires=['old(self).w.primary@ && old(self).w.emitted@.len() == 0 && old(self).w.buf@.len() == 0 && old(self).w.cap@ <= MAX_REPLY_CAP',
+           requires=['old(self).w.primary@ && old(self).w.emitted@.len() == 0 && old(self).w.buf@.len() == 0 && old(self).w.cap@ <= MAX_REPLY_CAP && !is_notify(old(self).w.id@)',
                      'uniq(old(self).w.id@) == old(self).in_header.unique', 'may_reply(old(self).w.id@)', 'err_ok(err)',
                      'emit_ok(old(self).w.id@, err_reply(old(self).in_header.unique, err)) // [C03.reply_error.bytes]'],
            ensures=FRAME + ['match r { Ok(n) => final(self).w.emitted@.len() == 1 && final(self).w.emitted@[0] == err_reply(old(self).in_header.unique, err) && n == 16, Err(_) => final(self).w.emitted@.len() == 0 }'],
@@ -721,6 +741,37 @@ impl<'a, S: BitmapSlice> ZeroCopyReader for ZcReader<'a, S> { }
            splices=[('^', 'after', 'broadcast use axiom_sbytes_len, lemma_err_reply_frame; let ghost req0 = r.rem@; proof { if req0.len() >= 56 { assert(req0.skip(40).subrange(0, 16) =~= req0.subrange(40, 56)); } reveal(errno_reply); assert((1u32 << 20) == 0x10_0000u32) by (bit_vector); assert(MAX_BUFFER_SIZE == 0x10_0000u32); }')],
            props=['C01'], canary=True),
     ]
+    NREQ = ['w.fresh_notify()', 'may_reply(w.id@)']
+    custom += [
+        Fn(SYNC, SRV, 'notify_inval_entry', requires=NREQ + ['name@.len() <= MAX_REPLY_CAP',
+                                                              'forall|b: Seq<u8>| #[trigger] emit_ok(w.id@, b) <==> b == notify_inval_entry_bytes(parent, name@) // [C03.notify_inval_entry.bytes]'],
+           sig_subst=[('&std::ffi::CStr', '&CStr')], props=['C03'], canary=True,
+           splices=[('^', 'after', 'broadcast use axiom_sbytes_len;'),
+                    ('buffer_writer.commit(None)', 'before',
+                     '''proof {
+            let rest = entry.sbytes() + name@.push(0u8);
+            lemma_notify_frame((16 + 16 + name@.len() + 1) as nat, 3, rest);
+            assert(commit_bytes(&buffer_writer, None) =~= notify_inval_entry_bytes(parent, name@));
+            assert(notify_inval_entry_bytes(parent, name@) =~= hdr_bytes((16 + 16 + name@.len() + 1) as nat, 3, 0) + rest);
+        }''')]),
+        Fn(SYNC, SRV, 'notify_inval_inode', requires=NREQ + ['forall|b: Seq<u8>| #[trigger] emit_ok(w.id@, b) <==> b == notify_inval_inode_bytes(ino, off, len) // [C03.notify_inval_inode.bytes]'],
+           props=['C03'], canary=True,
+           splices=[('^', 'after', 'broadcast use axiom_sbytes_len;'),
+                    ('buffer_writer.commit(None)', 'before',
+                     '''proof {
+            lemma_notify_frame(40, 2, inode.sbytes());
+            assert(commit_bytes(&buffer_writer, None) =~= notify_inval_inode_bytes(ino, off, len));
+        }''')]),
+        Fn(SYNC, SRV, 'notify_resend', requires=NREQ + ['forall|b: Seq<u8>| #[trigger] emit_ok(w.id@, b) <==> b == notify_resend_bytes() // [C03.notify_resend.bytes]'],
+           props=['C03'], canary=True,
+           splices=[('^', 'after', 'broadcast use axiom_sbytes_len;'),
+                    ('buffer_writer.commit(None)', 'before',
+                     '''proof {
+            lemma_notify_frame(16, 7, Seq::<u8>::empty());
+            assert(commit_bytes(&buffer_writer, None) =~= notify_resend_bytes());
+            assert(hdr_bytes(16, 7, 0) + Seq::<u8>::empty() =~= hdr_bytes(16, 7, 0));
+        }''')]),
+    ]
     if only:
         custom = [c for c in custom if c.name in only.split(',')]
     items.append(Group('impl<F: FileSystem> Server<F> {', hs + custom))
@@ -739,7 +790,16 @@ impl<'a, S: BitmapSlice> ZeroCopyReader for ZcReader<'a, S> { }
                     splices=[('^', 'after', 'broadcast use axiom_sbytes_len;'),
                              ('|l|', 'closure', '|l: usize| -> (q: usize) ensures q == l & !7usize'),
                              ('// Skip the entry if there', 'before', 'proof { lemma_pad(dirent_len); }'),
-                             ('Ok(total_len)', 'before', 'proof { assert(cursor.buf@ =~= old(cursor).buf@ + dirent_bytes(d, entry)); }')],
+                             ('Ok(total_len)', 'before', '''proof {
+            let e = match entry { Some(e) => entry_out(e).sbytes(), None => Seq::<u8>::empty() };
+            let dh = (Dirent { ino: d.ino, off: d.offset, namelen: d.name@.len() as u32, type_: d.type_ }).sbytes();
+            let pad = zeros(padding as int);
+            assert(padding as int == dirent_pad(d.name@.len() as int));
+            assert(cursor.buf@.len() == old(cursor).buf@.len() + e.len() + dh.len() + d.name@.len() + pad.len());
+            assert(cursor.buf@ =~= old(cursor).buf@ + e + dh + d.name@ + pad);
+            assert(dirent_bytes(d, entry) =~= e + dh + d.name@ + pad);
+            assert(old(cursor).buf@ + e + dh + d.name@ + pad =~= old(cursor).buf@ + (e + dh + d.name@ + pad));
+        }''')],
                     props=['C03', 'C16'], canary=True))
     return Unit('server', items, preludes=['base.rs', 'stdmodel.rs', 'transport.rs', 'server.rs'],
                 generic_tags={'cap': ['C02'], 'touch': ['C02'], 'ids': ['C02'], 'emit': ['C03'], 'frame': ['C01'], 'noreply': ['C01'],
